@@ -48,6 +48,7 @@ func (h *vfE2H) doF8Impl(k int, tok string) {
 		return
 	}
 	h.emit(fmt.Sprintf("finchan %d %d", k, seq), "ok")
+	cn.skew = true
 	ch.finished[seq] = true
 	delete(ch.located, seq)
 	delete(ch.holder, seq)
